@@ -31,8 +31,14 @@ PROGRAMS = {
     'swallow_exception': "m = 0\nwhile spin():\n    try:\n        m = m + 1\n    except Exception:\n        pass\n",
     'block': "print('before')\nblock()\nprint('after')\n",
     'slow': "a = 1\nb = a + 1\nprint('done', b)\n",
+    # swallows the interruption once and then ends normally - possibly while a later execution is running
+    'swallow_once': "try:\n    while spin():\n        pass\nexcept BaseException:\n    pass\nz = 1\n",
+    # ends with its own exception at the last moment
+    'slow_error': "a = 1\nprint('hello')\nb = a / 0\n",
 }
 SECOND = "print('second')\nprobe_value = 6 * 7\n"
+# (exception, runtime feedback) of a normal completion of the terminating students
+NORMAL = {'slow': (None, []), 'slow_error': ('ZeroDivisionError', ['zero_division_error'])}
 
 
 def _setup():
@@ -121,7 +127,7 @@ def make_body(programs, k_join, filtered):
         for l in S.log:
             if l[0] == 'finished':
                 who_last = l[1]
-        sig_base = {'program_kind': 'terminating' if pname == 'slow' else ('blocking' if pname == 'block' else 'looping')}
+        sig_base = {'program_kind': 'terminating' if pname.startswith('slow') else ('blocking' if pname == 'block' else 'looping')}
         canon = repr((pname, first, second, final, leaked, repr(err)[:60], repr(err2)[:60]))
         ctx.observe(canon)
         after_timer_steps = any(l[0] in ('deliver', 'blocks forever', 'drain horizon reached') for l in S.log)
@@ -146,13 +152,15 @@ def make_body(programs, k_join, filtered):
         timed_out = first['exception'] == 'TimeoutError'
         if S.timer_fired and not timed_out:
             # legitimate only if the student finished before it could be interrupted (terminating program)
-            if pname != 'slow' or first['exception'] is not None or first['runtime_feedback']:
+            normal = NORMAL.get(pname)
+            if normal is None or (first['exception'], first['runtime_feedback']) != normal:
                 fail('timer fired but the sandbox exception is not a timeout', got=first['exception'],
                      feedback=first['runtime_feedback'])
                 return
         if not S.timer_fired:
-            if first['exception'] is not None or first['runtime_feedback']:
-                fail('no time-out happened but a failure is reported', got=first['exception'])
+            if (first['exception'], first['runtime_feedback']) != NORMAL.get(pname, (None, [])):
+                fail('no time-out happened but the result is not that of a normal completion', got=first['exception'],
+                     feedback=first['runtime_feedback'])
             timed_out = False
         if timed_out:
             if first['runtime_feedback'] != ['timeout_error']:
@@ -228,8 +236,8 @@ def _sub(*names):
 def bounds(tier):
     if tier == 'quick':
         return {'all_lines': 'pre-emption bound 1, program busy, K=64 student steps before the timer',
-                'shared_state_lines_b1': 'pre-emption bound 1, all 5 programs, K=40',
-                'shared_state_lines_b2': 'pre-emption bound 2, programs slow and block, K=25',
+                'shared_state_lines_b1': 'pre-emption bound 1, all 8 programs, K=64',
+                'shared_state_lines_b2': 'pre-emption bound 2, programs slow_error and block, K=25',
                 'drain_horizon_steps': 400}
     return {'all_lines': 'pre-emption bound 1, all 5 programs, K=90',
             'shared_state_lines_b2': 'pre-emption bound 2, all 5 programs, K=40',
@@ -242,11 +250,11 @@ def phases(tier):
                describe='real threads, real 50 ms timer: sanity only')
     if tier == 'quick':
         return [
-            Phase('shared-state-lines-b1', make_body(PROGRAMS, 40, True), bound=1, setup=_setup, chunk=150, horizon_s=60,
+            Phase('shared-state-lines-b1', make_body(PROGRAMS, 64, True), bound=1, setup=_setup, chunk=150, horizon_s=60,
                   describe='points = lines touching shared state; all programs; pre-emption bound 1'),
             Phase('all-lines-b1', make_body(_sub('busy'), 64, False), bound=1, setup=_setup, chunk=150, horizon_s=60,
                   describe='every line of sandbox.py/timeout.py/student code is a point; busy loop; pre-emption bound 1'),
-            Phase('shared-state-lines-b2', make_body(_sub('slow', 'block'), 25, True), bound=2, setup=_setup, chunk=150,
+            Phase('shared-state-lines-b2', make_body(_sub('slow_error', 'block'), 25, True), bound=2, setup=_setup, chunk=150,
                   horizon_s=60, describe='points = lines touching shared state; terminating and blocking student; bound 2'),
             fr]
     return [
